@@ -3,6 +3,7 @@ package props
 import (
 	"bytes"
 	"fmt"
+	"strings"
 	"testing"
 
 	"github.com/bufbuild/protocompile"
@@ -75,11 +76,19 @@ func refStripValue(m protoreflect.Message, path []int32, removed *pathSet, depth
 		switch {
 		case f.fd.IsMap():
 			if f.fd.MapValue().Message() != nil {
+				n := f.v.Map().Len()
 				f.v.Map().Range(func(_ protoreflect.MapKey, mv protoreflect.Value) bool {
 					*depth++
-					// map entries have no stable index in source info; nested paths under maps are not asserted
-					var ignore pathSet
-					refStripValue(mv.Message(), nil, &ignore, depth, maxDepth)
+					// a location addresses a map entry by its position in the source, which the decoded map does not
+					// keep; what is stripped depends only on field types, so the paths stripped from this entry are
+					// expected to be gone under every position (2 = the entry's value field)
+					var rel pathSet
+					refStripValue(mv.Message(), nil, &rel, depth, maxDepth)
+					for i := 0; i < n; i++ {
+						for _, rp := range rel {
+							*removed = append(*removed, append(append(append([]int32{}, p...), int32(i), 2), rp...))
+						}
+					}
 					*depth--
 					return true
 				})
@@ -211,6 +220,75 @@ func TestC22_Strip(t *testing.T) {
 		Gen: func(t *rapid.T) c22Case {
 			ws := gen.GenWorkspace(t, gen.Config{CustomOpts: true, MaxFiles: 2, CustomOptPct: 50})
 			return c22Case{Files: ws.PrintAll(), Names: ws.Names(), SrcInfo: gen.Pick(t, []int{0, 1, 1, 5}, "srcinfo")}
+		},
+		Check: c22Check})
+}
+
+// TestC22_ExtensionOnly: an option value type without any declared source-retention field, whose source-retention
+// fields are all EXTENSIONS of it (and of a type nested in it), set at depth >= 1.
+func TestC22_ExtensionOnly(t *testing.T) {
+	const schema = `syntax = "proto2";
+package x;
+import "google/protobuf/descriptor.proto";
+message Plain { optional int32 keep = 1; optional Plain child = 2; repeated Plain kids = 3; map<string, Plain> mp = 4; extensions 100 to 199; }
+extend Plain { optional int32 px_src = 100 [retention = RETENTION_SOURCE]; optional int32 px_keep = 101; optional Plain px_msg_src = 102 [retention = RETENTION_SOURCE]; optional Plain px_msg = 103; }
+extend google.protobuf.MessageOptions { optional Plain plain = 50020; repeated Plain rplain = 50021; }
+extend google.protobuf.FieldOptions { optional Plain fplain = 50020; }
+`
+	var lit func(t *rapid.T, depth int) string
+	lit = func(t *rapid.T, depth int) string {
+		var parts []string
+		if gen.Pct(t, 60, "keep") {
+			parts = append(parts, "keep: 1")
+		}
+		if gen.Pct(t, 55, "src") {
+			parts = append(parts, "[x.px_src]: 2")
+		}
+		if gen.Pct(t, 40, "pxkeep") {
+			parts = append(parts, "[x.px_keep]: 3")
+		}
+		if depth < 3 {
+			if gen.Pct(t, 45, "child") {
+				parts = append(parts, "child { "+lit(t, depth+1)+" }")
+			}
+			for k := gen.Pick(t, []int{0, 0, 1, 2}, "nkids"); k > 0; k-- {
+				parts = append(parts, "kids { "+lit(t, depth+1)+" }")
+			}
+			for k, key := range []string{"a", "b"} {
+				if gen.Pct(t, 30, "mp") {
+					parts = append(parts, fmt.Sprintf("mp { key: %q value { %s } }", key, lit(t, depth+1)))
+				}
+				_ = k
+			}
+			if gen.Pct(t, 30, "msgsrc") {
+				parts = append(parts, "[x.px_msg_src] { "+lit(t, depth+1)+" }")
+			}
+			if gen.Pct(t, 30, "msg") {
+				parts = append(parts, "[x.px_msg] { "+lit(t, depth+1)+" }")
+			}
+		}
+		return strings.Join(parts, " ")
+	}
+	ev.Run(t, ev.Spec[c22Case]{ID: "C22", Name: "ExtensionOnly", Quick: 300, Thorough: 15000,
+		Rule: "a fixed schema whose option value type Plain declares no source-retention field itself: every source-retention field is an extension of Plain (scalar and message-typed), next to extensions and fields without it; generated values nest Plain up to depth 3 through singular, repeated, map-valued and extension message fields on messages and fields; all source-info modes; same oracle as Strip (the reference also expects the locations of fields stripped inside map entry values to be gone); non-trivial = a field was removed at depth >= 1",
+		Gen: func(t *rapid.T) c22Case {
+			var sb strings.Builder
+			sb.WriteString("syntax = \"proto2\";\npackage y;\nimport \"x.proto\";\n")
+			n := 1 + gen.Uniform(t, 3, "nmsgs")
+			for i := 0; i < n; i++ {
+				fmt.Fprintf(&sb, "message M%d {\n", i)
+				if gen.Pct(t, 70, "msgopt") {
+					fmt.Fprintf(&sb, "  option (x.plain) = { %s };\n", lit(t, 0))
+				}
+				for k := gen.Pick(t, []int{0, 1, 2}, "nrep"); k > 0; k-- {
+					fmt.Fprintf(&sb, "  option (x.rplain) = { %s };\n", lit(t, 0))
+				}
+				if gen.Pct(t, 50, "fieldopt") {
+					fmt.Fprintf(&sb, "  optional int32 f = 1 [(x.fplain) = { %s }];\n", lit(t, 0))
+				}
+				sb.WriteString("}\n")
+			}
+			return c22Case{Files: map[string]string{"x.proto": schema, "y.proto": sb.String()}, Names: []string{"y.proto"}, SrcInfo: gen.Pick(t, []int{0, 1, 5, 5, 7}, "srcinfo")}
 		},
 		Check: c22Check})
 }
